@@ -15,7 +15,7 @@ IsEv  == IF cpc' # cpc THEN cpc \in {"idle", "ret"} ELSE pc[Mover] \in {"idle", 
 GInit == Init /\ hist = <<>>
 GNext == /\ Next
          /\ hist' = Append(hist, [s |-> Mover, ev |-> IF IsEv THEN 1 ELSE 0,
-                                  c |-> IF cpc = "idle" /\ cpc' = "apply" THEN cnew' ELSE [mif |-> FALSE, M |-> 99]])
+                                  c |-> IF cpc = "idle" /\ cpc' = "apply" THEN cnew' ELSE [mif |-> FALSE, M |-> 99, v |-> 0]])
 GSpec == GInit /\ [][GNext]_gvars
 View == <<objs, cur, pc, inner, cnt, mx, res, round, held1, cpc, cleft, cnew>>
 
